@@ -9,5 +9,8 @@ MCNamesFull == {nX, nX_, nX__, nXh, nAuB, nAhB, nAuBu, nXuh, <<99, 108, 97, 115,
 hostile1 == <<97, 34, 60, 10>>       \* a"<LF
 hostile2 == <<38, 39, 13, 59>>       \* &'CR;
 MCVals == {V("none", <<>>), V("true", <<>>), V("str", hostile1), V("html", hostile2), V("num", <<53>>)}
-MCValsFull == MCVals \cup {V("false", <<>>), V("bad", <<>>), V("str", <<>>), V("html", hostile1), V("str", hostile2)}
+\* (a trusted HTML() value is emitted verbatim: one that contains a double quote ends the attribute by itself, which is
+\*  its author's business and outside C03 - the HTML() values of the model hold every other special character)
+hostile3 == <<97, 39, 60, 10>>       \* a'<LF
+MCValsFull == MCVals \cup {V("false", <<>>), V("bad", <<>>), V("str", <<>>), V("html", hostile3), V("str", hostile2)}
 =============================================================================
